@@ -10,20 +10,49 @@ for SID in "$@"; do
   unset HITEN_VERIF
   ( cd $WT && PYTHONPATH=$WT/src NUMBA_NUM_THREADS=4 OMP_NUM_THREADS=4 OMP_WAIT_POLICY=passive PYTHONWARNINGS=ignore NUMBA_CACHE_DIR=/tmp/fs_cache_$SID \
       nice -n 10 /venv/bin/python -m pytest -q -p no:cacheprovider --timeout=1800 -n 5 --junitxml=/tmp/fs_$SID.xml > /tmp/fs_$SID.log 2>&1 )
-  SUM=$(/venv/bin/python - /tmp/fs_$SID.xml $D/meta.json <<'PY'
+  # tests that write to the shared relative path results/... race under xdist: re-run whatever did not pass serially, once
+  RETRY=$(/venv/bin/python - /tmp/fs_$SID.xml <<'PY'
 import json, sys, xml.etree.ElementTree as ET
 base = set(json.load(open('/root/.vp/BASELINE.json'))['stable_pass'])
 passed = set()
 for tc in ET.parse(sys.argv[1]).getroot().iter('testcase'):
     if not any(ch.tag in ('failure', 'error', 'skipped') for ch in tc):
         passed.add(tc.get('classname') + '::' + tc.get('name'))
+out = []
+for m in sorted(base - passed)[:20]:
+    cls, name = m.split('::', 1)
+    out.append(cls.replace('.', '/') + '.py::' + name)
+print(' '.join(out))
+PY
+)
+  if [ -n "$RETRY" ]; then
+    ( cd $WT && PYTHONPATH=$WT/src NUMBA_NUM_THREADS=4 OMP_NUM_THREADS=4 OMP_WAIT_POLICY=passive PYTHONWARNINGS=ignore NUMBA_CACHE_DIR=/tmp/fs_cache_$SID \
+        /venv/bin/python -m pytest -q -p no:cacheprovider --timeout=1800 --junitxml=/tmp/fs_$SID.retry.xml $RETRY > /tmp/fs_$SID.retry.log 2>&1 )
+  else
+    rm -f /tmp/fs_$SID.retry.xml
+  fi
+  SUM=$(/venv/bin/python - /tmp/fs_$SID.xml $D/meta.json /tmp/fs_$SID.retry.xml <<'PY'
+import json, sys, xml.etree.ElementTree as ET
+base = set(json.load(open('/root/.vp/BASELINE.json'))['stable_pass'])
+passed = set()
+import os
+retried = 0
+for f in (sys.argv[1], sys.argv[3]):
+    if not os.path.exists(f):
+        continue
+    for tc in ET.parse(f).getroot().iter('testcase'):
+        if not any(ch.tag in ('failure', 'error', 'skipped') for ch in tc):
+            nm = tc.get('classname') + '::' + tc.get('name')
+            if f == sys.argv[3] and nm not in passed:
+                retried += 1
+            passed.add(nm)
 missing = sorted(base - passed)
 m = json.load(open(sys.argv[2]))
-m.setdefault("confirmed", {})["full_pinned_suite_with_patch"] = "%d of %d pinned tests pass" % (len(base & passed), len(base)) + ("" if not missing else "; NOT passing: " + ", ".join(missing[:10]))
+m.setdefault("confirmed", {})["full_pinned_suite_with_patch"] = "%d of %d pinned tests pass" % (len(base & passed), len(base)) + ("" if not retried else " (%d of them on a serial re-run: shared results/ path races under xdist)" % retried) + ("" if not missing else "; NOT passing: " + ", ".join(missing[:10]))
 json.dump(m, open(sys.argv[2], "w"), indent=1)
 print("%d/%d%s" % (len(base & passed), len(base), "" if not missing else " MISSING " + " ".join(missing[:5])))
 PY
 )
   echo "$SID full suite: $SUM"
-  git -C /repo worktree remove --force $WT; rm -rf /tmp/fs_cache_$SID /tmp/fs_$SID.xml
+  git -C /repo worktree remove --force $WT; rm -rf /tmp/fs_cache_$SID /tmp/fs_$SID.xml /tmp/fs_$SID.retry.xml
 done
